@@ -25,7 +25,7 @@ META = {
 }
 GROUP = "ctc"
 REQ = "From RV Require Import Prelude.\nFrom Ctc Require Import ModelCtc.\nOpen Scope N_scope."
-THEOREMS = ["C39_greedy_is_collapsed_argmax", "C39_greedy_loop_is_collapse", "C39_greedy_positions_first", "C39_argmax_last_max",
+THEOREMS = ["C39_greedy_is_collapsed_argmax", "C39_greedy_loop_is_collapse", "C39_greedy_positions_first", "C39_argmax_first_max",
             "C39_beam_step_keeps_prefixes_distinct", "C39_beam_prefixes_distinct", "C39_beam_scores_nonzero",
             "C39_beam_score_le_exact", "C39_beam_exact_when_unpruned", "C39_beam_complete_when_unpruned",
             "C39_exact_is_alignment_sum", "C39_forward_recursion_is_exact",
@@ -38,6 +38,9 @@ def classify(c):
 
 def main(ctx):
     ctx.rule = ("exhaustive matrices T<=2, L<=2 (quick) / L<=3 (thorough) over the probability alphabet {0, 4/16, 5/16} x several (beam, n-best) pairs, "
+                "plus a structured family of 600 (quick) / 6000 (thorough) narrow-beam inputs (T 4..6, L 3..4, beam 2..4, weights {1,3,13,30}/128) "
+                "selected by an integer re-run of the search for having a prune-then-recreate history (a prefix dropped from the beam and "
+                "re-created later while its extension survived, so the merge map joins states of different lineage), "
                 "plus seeded random matrices T<=5, L<=4 with dyadic probabilities (uniform, one-hot, tied peaks, dead rows, small palettes, random "
                 "splits with zeros), beam 1..25, n-best 1..25; non-trivial = at least one frame; distinct = distinct (matrix, beam, n-best)")
     ctx.trusted += ["modelled, not verified: std HashMap (merge map: last insert wins), Vec::sort_by (stable) + total_cmp, Iterator::max_by "
@@ -48,7 +51,7 @@ def main(ctx):
     ctx.audit(GROUP)
     failed = ctx.prove(GROUP, "Props_C39", THEOREMS)
     bindir = ctx.harness(GROUP, profile="release", bins=["c39"])
-    cases = ctx.gen_exec(bindir, "c39", ctx.n(2500, 15000), inputs=ctx.replay_inputs())
+    cases = ctx.gen_exec(bindir, "c39", ctx.n(2000, 15000), inputs=ctx.replay_inputs())
     ctx.correspond("CtcDecoder", GROUP, REQ, cases, classify=classify, show="show", shard=250,
                    fn_name="Ctc.ModelCtc.{greedy_steps,decode_beam_nbest}")
     # informational (no alarm): how many cases had their beam comparison skipped (ranking gap below the
